@@ -224,12 +224,23 @@ def sc_register(rng, on_dataset=False, n=2):
         evaluate = ov.evaluate
     seen = {i: [] for i in range(n)}
 
+    route0 = rng.randrange(3)
+
     def fn_for(i):
         def fn(s, me):
             for j in range(per):
                 key = f"k{i}.{j}"
                 s.op(me)
-                register(key, Value(("impl", key)))
+                route = ["register", "decorator", "decorator-list"][(route0 + i + j) % 3] if on_dataset else "register"
+                if route == "register":
+                    register(key, Value(("impl", key)))
+                else:
+                    # the decorator routes of a dataset: @target.overload(alias) / @target.overload([alias, other])
+                    def impl(key=key):
+                        return ("impl", key)
+
+                    impl.__name__ = "impl_" + key.replace(".", "_")
+                    target.overload(key if route == "decorator" else [key, key + "'"])(impl)
                 s.op(me)
                 seen[i].append((key, evaluate({"D": key, "A": i})))
 
@@ -311,7 +322,7 @@ def cleanup(threads):
 
 FOCUS = {  # focus mode: yield points only in the file that owns the shared state of the scenario
     "evaluate-cached-unique": ("cache.py",), "evaluate-cached-equal": ("cache.py",),
-    "register-overloaded": ("overload.py",), "register-dataset": ("overload.py",),
+    "register-overloaded": ("overload.py",), "register-dataset": ("overload.py", "dataset.py"),
     "contexts-shared": ("runtime.py",), "contexts-private": ("runtime.py",), "inherit": ("runtime.py",),
 }
 
